@@ -27,6 +27,9 @@ OBLIGATION_MSGS = [
     "possible bit shift underflow/overflow",
     "cannot show invariant",
     "failed to satisfy",
+    "unable to prove post-condition of closure",
+    "unable to prove",
+    "not satisfied",
 ]
 INCONCLUSIVE_MSGS = ["rlimit", "Resource limit", "timed out", "timeout", "canceled"]
 
